@@ -31,81 +31,81 @@ package server
 // (resource, action) was granted, and reaches its effect only after the grant.
 //@ func (*apiServer).CreateStream serves C15
 //@   returns (resp, err)
-//@   requires a != nil && a.Server != nil && a.config != nil && req != nil
-//@   requires forall r string, x string :: !ghost.authz[r][x]
+//@   assumes a != nil && a.Server != nil && a.config != nil && req != nil
+//@   assumes forall r string, x string :: !ghost.authz[r][x]
 //@   call (*metadataAPI).CreateStream requires !a.config.TLSClientAuthz || ghost.authz[arg2.Stream.Name]["CreateStream"]
 //@   ensures [refused] old(a.config.TLSClientAuthz) && !ghost.authz[old(req.Name)]["CreateStream"] ==> err != nil
 
 //@ func (*apiServer).DeleteStream serves C15
 //@   returns (resp, err)
-//@   requires a != nil && a.Server != nil && a.config != nil && req != nil
-//@   requires forall r string, x string :: !ghost.authz[r][x]
+//@   assumes a != nil && a.Server != nil && a.config != nil && req != nil
+//@   assumes forall r string, x string :: !ghost.authz[r][x]
 //@   call (*metadataAPI).DeleteStream requires !a.config.TLSClientAuthz || ghost.authz[arg2.Stream]["DeleteStream"]
 //@   ensures [refused] old(a.config.TLSClientAuthz) && !ghost.authz[old(req.Name)]["DeleteStream"] ==> err != nil
 
 //@ func (*apiServer).PauseStream serves C15
 //@   returns (resp, err)
-//@   requires a != nil && a.Server != nil && a.config != nil && req != nil
-//@   requires forall r string, x string :: !ghost.authz[r][x]
+//@   assumes a != nil && a.Server != nil && a.config != nil && req != nil
+//@   assumes forall r string, x string :: !ghost.authz[r][x]
 //@   call (*metadataAPI).PauseStream requires !a.config.TLSClientAuthz || ghost.authz[arg2.Stream]["PauseStream"]
 //@   call (*metadataAPI).GetStream requires !a.config.TLSClientAuthz || ghost.authz[arg1]["PauseStream"]
 //@   ensures [refused] old(a.config.TLSClientAuthz) && !ghost.authz[old(req.Name)]["PauseStream"] ==> err != nil
 
 //@ func (*apiServer).SetStreamReadonly serves C15
 //@   returns (resp, err)
-//@   requires a != nil && a.Server != nil && a.config != nil && req != nil
-//@   requires forall r string, x string :: !ghost.authz[r][x]
+//@   assumes a != nil && a.Server != nil && a.config != nil && req != nil
+//@   assumes forall r string, x string :: !ghost.authz[r][x]
 //@   call (*metadataAPI).SetStreamReadonly requires !a.config.TLSClientAuthz || ghost.authz[arg2.Stream]["SetStreamReadonly"]
 //@   call (*metadataAPI).GetStream requires !a.config.TLSClientAuthz || ghost.authz[arg1]["SetStreamReadonly"]
 //@   ensures [refused] old(a.config.TLSClientAuthz) && !ghost.authz[old(req.Name)]["SetStreamReadonly"] ==> err != nil
 
 //@ func (*apiServer).Subscribe serves C15
-//@   requires a != nil && a.Server != nil && a.config != nil && req != nil
-//@   requires forall r string, x string :: !ghost.authz[r][x]
+//@   assumes a != nil && a.Server != nil && a.config != nil && req != nil
+//@   assumes forall r string, x string :: !ghost.authz[r][x]
 //@   call (*apiServer).SubscribeInternal requires !a.config.TLSClientAuthz || ghost.authz[arg2.Stream]["Subscribe"]
 //@   call Send requires !a.config.TLSClientAuthz || ghost.authz[req.Stream]["Subscribe"]
 //@   ensures [refused] old(a.config.TLSClientAuthz) && !ghost.authz[old(req.Stream)]["Subscribe"] ==> result != nil
 
 //@ func (*apiServer).FetchMetadata serves C15
 //@   returns (resp, err)
-//@   requires a != nil && a.Server != nil && a.config != nil && req != nil
-//@   requires forall r string, x string :: !ghost.authz[r][x]
+//@   assumes a != nil && a.Server != nil && a.config != nil && req != nil
+//@   assumes forall r string, x string :: !ghost.authz[r][x]
 //@   call (*metadataAPI).FetchMetadata requires !a.config.TLSClientAuthz || ghost.authz["*"]["FetchMetadata"]
 //@   ensures [refused] old(a.config.TLSClientAuthz) && !ghost.authz["*"]["FetchMetadata"] ==> err != nil
 
 //@ func (*apiServer).FetchPartitionMetadata serves C15
 //@   returns (resp, err)
-//@   requires a != nil && a.Server != nil && a.config != nil && req != nil
-//@   requires forall r string, x string :: !ghost.authz[r][x]
+//@   assumes a != nil && a.Server != nil && a.config != nil && req != nil
+//@   assumes forall r string, x string :: !ghost.authz[r][x]
 //@   call (*metadataAPI).FetchPartitionMetadata requires !a.config.TLSClientAuthz || ghost.authz[arg2.Stream]["FetchPartitionMetadata"]
 //@   ensures [refused] old(a.config.TLSClientAuthz) && !ghost.authz[old(req.Stream)]["FetchPartitionMetadata"] ==> err != nil
 
 //@ func (*apiServer).Publish serves C15
 //@   returns (resp, err)
-//@   requires a != nil && a.Server != nil && a.config != nil && req != nil
-//@   requires forall r string, x string :: !ghost.authz[r][x]
+//@   assumes a != nil && a.Server != nil && a.config != nil && req != nil
+//@   assumes forall r string, x string :: !ghost.authz[r][x]
 //@   call (*apiServer).resumeStream requires !a.config.TLSClientAuthz || ghost.authz[arg2]["Publish"]
 //@   call (*apiServer).publish requires !a.config.TLSClientAuthz || ghost.authz[arg5.Stream]["Publish"]
 //@   ensures [refused] old(a.config.TLSClientAuthz) && !ghost.authz[old(req.Stream)]["Publish"] ==> err != nil
 
 //@ func (*apiServer).PublishToSubject serves C15
 //@   returns (resp, err)
-//@   requires a != nil && a.Server != nil && a.config != nil && req != nil
-//@   requires forall r string, x string :: !ghost.authz[r][x]
+//@   assumes a != nil && a.Server != nil && a.config != nil && req != nil
+//@   assumes forall r string, x string :: !ghost.authz[r][x]
 //@   call (*apiServer).publish requires !a.config.TLSClientAuthz || ghost.authz[arg2]["PublishToSubject"]
 //@   ensures [refused] old(a.config.TLSClientAuthz) && !ghost.authz[old(req.Subject)]["PublishToSubject"] ==> err != nil
 
 //@ func (*apiServer).SetCursor serves C15
 //@   returns (resp, err)
-//@   requires a != nil && a.Server != nil && a.config != nil && req != nil
-//@   requires forall r string, x string :: !ghost.authz[r][x]
+//@   assumes a != nil && a.Server != nil && a.config != nil && req != nil
+//@   assumes forall r string, x string :: !ghost.authz[r][x]
 //@   call (*cursorManager).SetCursor requires !a.config.TLSClientAuthz || ghost.authz[arg2]["SetCursor"]
 //@   ensures [refused] old(a.config.TLSClientAuthz) && !ghost.authz[old(req.Stream)]["SetCursor"] ==> err != nil
 
 //@ func (*apiServer).FetchCursor serves C15
 //@   returns (resp, err)
-//@   requires a != nil && a.Server != nil && a.config != nil && req != nil
-//@   requires forall r string, x string :: !ghost.authz[r][x]
+//@   assumes a != nil && a.Server != nil && a.config != nil && req != nil
+//@   assumes forall r string, x string :: !ghost.authz[r][x]
 //@   call (*cursorManager).GetCursor requires !a.config.TLSClientAuthz || ghost.authz[arg2]["FetchCursor"]
 //@   ensures [refused] old(a.config.TLSClientAuthz) && !ghost.authz[old(req.Stream)]["FetchCursor"] ==> err != nil
 
@@ -422,3 +422,49 @@ package server
 //@   ghost at entry: ghost.pauseApplied := false
 //@   ghost after call Pause: ghost.pauseApplied := true
 //@   ensures [paused-reapplied] result == nil && old(protoPartition.Paused) ==> ghost.pauseApplied
+
+// ---------------------------------------------------------------------------------------------
+// Activity stream (property C18): events in commit order, at least once, id = Raft index
+//
+// ghost.handled[k]: Raft entry k needs no (more) event: it is not a command, or its event was published
+// and recorded; ghost.start: the index dispatch started from (last published index + 1)
+//@ ghost var handled set[uint64]
+//@ ghost var start uint64
+//@ ghost var pubOK bool
+
+// dispatch: walks the log from the last published index + 1, never skips an entry, and advances only
+// past entries that are handled; the entry handed to handleRaftLog is the one at the current index
+//@ func (*activityManager).dispatch serves C18
+//@   requires a != nil
+//@   ghost after call LastPublishedRaftIndex: ghost.start := uint64(ret0 + 1)
+//@   ghost after call GetLog: ghost.handled[arg1] := ghost.handled[arg1] || (ret0 == nil && arg2.Type != 0)
+//@   ghost after call handleRaftLog: ghost.handled[arg1.Index] := ghost.handled[arg1.Index] || ret0 == nil
+//@   call handleRaftLog requires [entry-at-current-index] arg1.Index == index && arg1.Type == 0
+//@   loop 1 invariant ghost.start <= index && (forall k uint64 :: ghost.start <= k && k < index ==> ghost.handled[k])
+//@   loop 2 invariant ghost.start <= index && log.Index == index && log.Type == 0 && (forall k uint64 :: ghost.start <= k && k < index ==> ghost.handled[k])
+
+// handleRaftLog: the event id is the entry's Raft index (the same on every redelivery)
+//@ func (*activityManager).handleRaftLog serves C18
+//@   requires a != nil && l != nil
+//@   call publishActivityEvent requires [id-is-raft-index] arg1.Id == l.Index
+//@   call publishActivityEvent requires [op-mapping] (log.Op == proto.Op_CREATE_STREAM ==> arg1.Op == client.ActivityStreamOp_CREATE_STREAM) && (log.Op == proto.Op_DELETE_STREAM ==> arg1.Op == client.ActivityStreamOp_DELETE_STREAM) && (log.Op == proto.Op_PAUSE_STREAM ==> arg1.Op == client.ActivityStreamOp_PAUSE_STREAM) && (log.Op == proto.Op_RESUME_STREAM ==> arg1.Op == client.ActivityStreamOp_RESUME_STREAM) && (log.Op == proto.Op_SET_STREAM_READONLY ==> arg1.Op == client.ActivityStreamOp_SET_STREAM_READONLY) && (log.Op == proto.Op_JOIN_CONSUMER_GROUP ==> arg1.Op == client.ActivityStreamOp_JOIN_CONSUMER_GROUP) && (log.Op == proto.Op_LEAVE_CONSUMER_GROUP ==> arg1.Op == client.ActivityStreamOp_LEAVE_CONSUMER_GROUP)
+
+// publishActivityEvent: publish first, then record exactly this event's id through Raft (at least once, never lost)
+//@ func (*activityManager).publishActivityEvent serves C18
+//@   requires a != nil && event != nil
+//@   ghost at entry: ghost.pubOK := false
+//@   ghost after call Publish: ghost.pubOK := ret1 == nil
+//@   call applyOperation requires [published-before-recorded] ghost.pubOK && arg2.Op == proto.Op_PUBLISH_ACTIVITY && arg2.PublishActivityOp.RaftIndex == event.Id
+//@   ensures [success-means-published] result == nil ==> ghost.pubOK
+
+//@ func (*activityManager).SetLastPublishedRaftIndex serves C18
+//@   requires a != nil
+//@   modifies a.lastPublishedRaftIndex
+//@   ensures a.lastPublishedRaftIndex == index
+//@ func (*activityManager).LastPublishedRaftIndex serves C18
+//@   requires a != nil
+//@   modifies nothing
+//@   ensures result == a.lastPublishedRaftIndex
+//@ callers (*activityManager).publishActivityEvent serves C18: (*activityManager).handleRaftLog
+//@ callers (*activityManager).handleRaftLog serves C18: (*activityManager).dispatch
+//@ callers (*activityManager).SetLastPublishedRaftIndex serves C18: (*Server).apply
